@@ -91,6 +91,16 @@ template <sz R, sz C> void identity_shape()
 {
   static std::string const fn = "identity_shape<" + shape(R, C) + ">";
   static std::string const sg = R < C ? "identity_shape<rows_lt_cols>" : (R == C ? "identity_shape<square>" : "identity_shape<rows_gt_cols>");
+  // identity<Matrix> of this very shape (also when it is not square): ones exactly where row == column
+  if (vrt::begin_text(fn.c_str(), fn + " identity<" + shape(R, C) + "> itself"))
+  {
+    vrt::nontrivial(R != C);
+    rmat<R, C> delta;
+    for (sz i = 0; i < R; ++i)
+      for (sz j = 0; j < C; ++j)
+        delta.at(i, j) = i == j ? 1 : 0;
+    C14_EQ(rd(fm::identity<smat<R, C>>()), delta, sg + ":kronecker_delta", "identity<RxC>");
+  }
   for (auto const &a : family<R, C>())
   {
     if (!vrt::begin_text(fn.c_str(), fn + " A=" + show(a)))
